@@ -39,8 +39,8 @@ class C12(Prop):
             ints.add(5 * 2 ** k)
         ints.update([24576, 49152, 131071, 524287, 33554433, 10 ** 6, 10 ** 9, 2 ** 64 + 2 ** 14, 2 ** 80])
         if tier == "thorough":
-            ints.update(range(71, 2 ** 17 + 2))
-            ints.update(rng.randrange(2 ** 17, 2 ** 40) for _ in range(20000))
+            ints.update(range(71, 2 ** 18 + 2))
+            ints.update(rng.randrange(2 ** 17, 2 ** 40) for _ in range(60000))
         else:
             ints.update(rng.randrange(71, 2 ** 26) for _ in range(300))
             ints.update(range(16380, 16390))
@@ -83,7 +83,7 @@ class C12(Prop):
             for d in (-1, 0, 1):
                 sizes.add(1000 * 2 ** e + d)
                 sizes.add(1024 * 2 ** e + d)
-        sizes.update(rng.randrange(0, 2 ** 50) for _ in range(3000 if tier == "thorough" else 300))
+        sizes.update(rng.randrange(0, 2 ** 50) for _ in range(20000 if tier == "thorough" else 300))
         for s in sorted(sizes):
             out.append({"op": "auto", "size": str(s), "clauses": ["C12.auto"]})
         for c in out:
